@@ -1061,7 +1061,7 @@ def gen_czar(r, cid, big=False):
     if r.random() < 0.5:
         for _ in range(r.randint(1, 2)):
             restart_at[str(r.randint(1, T - 2))] = [r.choice(["text", "binary", "str", "buf"]) for _ in range(n)]
-    return {"kind": "czar", "id": cid, "n": n, "nbins": nb, "freq": freq, "script": script, "freq2": (r.choice([2, 3, 5]) if restart_at and r.random() < 0.5 else None), "hist": r.random() < 0.3, "twice": r.random() < 0.4, "restart_at": restart_at, "steps": steps, "gather_at": gather_at}
+    return {"kind": "czar", "id": cid, "n": n, "nbins": nb, "freq": freq, "script": script, "freq2": (r.choice([2, 3, 5]) if restart_at and not script and r.random() < 0.5 else None), "hist": r.random() < 0.3, "twice": r.random() < 0.4, "restart_at": restart_at, "steps": steps, "gather_at": gather_at}
 
 
 def check_czar(run, exe, model, cases, scratch):
@@ -1128,6 +1128,9 @@ def check_czar(run, exe, model, cases, scratch):
         def gfmt(d):
             return ";".join([",".join(str(x) for x in d[k_]) for k_ in ("cnt", "lcnt", "ocnt", "zcnt")] +
                             [",".join(V.hexf(x) for x in d[k_]) for k_ in ("sum", "lsum", "osum", "zsum")])
+        if any(d is None or d.get(k_) is None for (t, dumps, pr, before) in res for d in before for k_ in ("cnt", "lcnt", "ocnt", "zcnt")):
+            run.dist("czar:gather-before-sharing-was-enabled")      # (script mode: nothing to gather yet; not generated on purpose)
+            continue
         for (t, dumps, pr, before) in res:
             glines.append("GATHER %d %d %d %s" % (c["n"], len(before[0]["cnt"]), len(before[0]["sum"]), " ".join(gfmt(d) for d in before)))
         rc, gout, err = V.run_lines(model, glines, timeout=300)
